@@ -634,7 +634,7 @@ var clauseKeywords = map[string]bool{
 	"pure": true, "inline": true, "safe": true, "assume": true, "returns": true, "nopanic": true,
 	"purefield": true, "cases": true, "replay": true, "panics_if": true, "opaque": true, "reads": true,
 	"uses": true, "event": true, "mode": true, "assert": true, "noinline": true, "havoc": true, "maxpaths": true,
-	"trusted": true, "frame": true, "ghost": true, "calls": true,
+	"trusted": true, "frame": true, "ghost": true, "calls": true, "ordered": true,
 }
 
 var tagRe = regexp.MustCompile(`^\[([A-Z0-9, ]+)\]\s*`)
@@ -947,7 +947,7 @@ func LoadContractFile(path string, trusted bool) (*ContractSet, error) {
 						c.Props = fs.Props
 					}
 					fs.Clauses = append(fs.Clauses, c)
-				case "modifies", "cases", "havoc", "loopmodifies", "frame", "event", "replay", "at", "tag", "preserves", "uses":
+				case "modifies", "cases", "havoc", "loopmodifies", "frame", "event", "replay", "at", "tag", "preserves", "uses", "ordered":
 					if c.Props == nil {
 						c.Props = fs.Props
 					}
